@@ -7,7 +7,7 @@
       into gen/LockFootprints.v), their instantiation [inst], the class-level
       check [cordered].
     Part 3 (lifecycle): the ticker thread automaton of TickerControl::run
-      (src/progress_bar.rs:722-755) in an environment given by labels; the
+      (src/progress_bar.rs:739-772) in an environment given by labels; the
       time-out of wait_timeout_while is a label argument (an oracle).
     Part 4: checkers used by the correspondence shards of harness/src/bin/c08.rs.
 
@@ -23,7 +23,7 @@ Local Open Scope nat_scope.
     (progress_bar.rs:31); [Bar b]: ProgressBar.state : Arc<Mutex<BarState>> (:29);
     [Multi m]: MultiProgress.state : Arc<RwLock<MultiState>> (multi.rs:22; read() is
     modelled as an exclusive acquisition); [Stop k]: Ticker.stopping.0 : Mutex<bool>
-    with its Condvar (progress_bar.rs:675). *)
+    with its Condvar (progress_bar.rs:692). *)
 Inductive res := Slot (b : nat) | Bar (b : nat) | Multi (m : nat) | Stop (k : nat).
 
 (** Rank: a linear extension of the nesting found in the code
@@ -262,22 +262,22 @@ Definition old_update_fp : list caction :=
 
 (* ------------------------------------------------------------------ Part 3 *)
 
-(** TickerControl::run (src/progress_bar.rs:722-755), one control point per blocking or
+(** TickerControl::run (src/progress_bar.rs:739-772), one control point per blocking or
     shared-state operation. *)
 Inductive tpc :=
-| TUpgrade         (* :726 self.state.upgrade() *)
-| TLockBar         (* :727 arc.lock() *)
-| TCheckFin        (* :728 state.state.is_finished() *)
-| TFinUnlock       (* :729 break: the guard `state` is dropped ... *)
+| TUpgrade         (* :743 self.state.upgrade() *)
+| TLockBar         (* :744 arc.lock() *)
+| TCheckFin        (* :745 state.state.is_finished() *)
+| TFinUnlock       (* :746 break: the guard `state` is dropped ... *)
 | TFinDrop         (*           ... then `arc` *)
-| TTick            (* :732 state.tick(now)  (BarState::tick, state.rs:143: tick+1, draw) *)
-| TUnlockBar       (* :734 drop(state) *)
-| TDropArc         (* :735 drop(arc)   (BarState::drop runs here if it was the last Arc) *)
-| TLockStop        (* :741 self.stopping.0.lock() *)
+| TTick            (* :749 state.tick(now)  (BarState::tick, state.rs:143: tick+1, draw) *)
+| TUnlockBar       (* :751 drop(state) *)
+| TDropArc         (* :752 drop(arc)   (BarState::drop runs here if it was the last Arc) *)
+| TLockStop        (* :758 self.stopping.0.lock() *)
 | TCheckStop       (* wait_timeout_while loop head: predicate !*stopped, then the deadline *)
 | TSleep           (* inside Condvar::wait_timeout: Stop released atomically, thread parked *)
 | TRelock          (* woken (notify / time-out / spurious): re-acquire Stop *)
-| TUnlockStopExit  (* :747-748 not timed out => break; `result` (the guard) dropped *)
+| TUnlockStopExit  (* :764-765 not timed out => break; `result` (the guard) dropped *)
 | TUnlockStopLoop  (* timed out: end of the loop body, `result` dropped, next iteration *)
 | TDone.
 
@@ -300,8 +300,8 @@ Inductive label :=
 | LT (timed_out : bool)   (* one step of the ticker thread; the argument is the time-out oracle's
                              answer, read only at TCheckStop (deadline passed?) *)
 | LWake                   (* time-out or spurious wake-up of the parked thread *)
-| LNotify                 (* Ticker::stop :712 notify_one() *)
-| LLockStop | LSetStop | LUnlockStop     (* Ticker::stop :711 *)
+| LNotify                 (* Ticker::stop :729 notify_one() *)
+| LLockStop | LSetStop | LUnlockStop     (* Ticker::stop :728 *)
 | LLockBar | LUnlockBar                  (* any user call holding the bar state *)
 | LFinish | LReset                       (* under the bar state lock *)
 | LClone | LDropHandle.
@@ -369,7 +369,7 @@ Fixpoint lrun (tr : list label) (s : tsys) : option tsys :=
   | l :: r => match lstep l s with Some s' => lrun r s' | None => None end
   end.
 
-(** a freshly spawned ticker (Ticker::new, :690-708): flag false, Stop free; the bar state may
+(** a freshly spawned ticker (Ticker::new, :707-725): flag false, Stop free; the bar state may
     be finished or not and locked by a user or not, any number of handles *)
 Definition tinit (fi : bool) (st : nat) (bar_locked : bool) : tsys :=
   {| pc := TUpgrade; flag := false; owed := false; fin := fi; strong := st; tarc := false;
@@ -431,7 +431,7 @@ Fixpoint run_ticker (os : nat -> bool) (n : nat) (s : tsys) : tsys :=
   | S n' => match tstep (os n') s with Some s' => run_ticker os n' s' | None => s end
   end.
 
-(** ProgressBar::tick_inner (:225-230) + BarState::tick (state.rs:143-146) on the spinner tick *)
+(** ProgressBar::tick_inner (progress_bar.rs:235-240) + BarState::tick (state.rs:143-146) on the spinner tick *)
 Definition tick_inner (slot_is_none : bool) (tk : N) : N :=
   if slot_is_none then sat_add64 tk 1 else tk.
 
